@@ -62,6 +62,25 @@ def sub_defs(compiler) -> dict:
     return {n: s.il_init(SubRoutineInitType.DEF) for n, s in compiler.sub_routines.items()}
 
 
+def sub_sigs(compiler) -> dict:
+    """name -> {"ret": (signed,width)|None, "params": [(name, kind, signed, width)]} from the registered objects."""
+    from rzilcompiler.Transformer.ValueType import VTGroup
+
+    out = {}
+    for n, s in compiler.sub_routines.items():
+        ps = []
+        for p in s.ops:
+            vt = p.value_type
+            if vt.group & (VTGroup.EXTERNAL | VTGroup.VOID):
+                ps.append((p.get_name(), "ext", None, None))
+            else:
+                ps.append((p.get_name(), "pure", bool(vt._signed), int(vt._bit_width)))
+        rt = s.value_type
+        ret = None if rt.group & (VTGroup.VOID | VTGroup.EXTERNAL) else (bool(rt._signed), int(rt._bit_width))
+        out[n] = {"ret": ret, "params": ps}
+    return out
+
+
 def exc_info(e: BaseException) -> dict:
     inner = e
     seen = 0
@@ -115,6 +134,10 @@ def compile_stmt_case(compilers: dict, case: dict) -> dict:
     """case: {text, layout='rs', subs=[(name, ret, params, body)...], aged=int}
     Runs in a forked child; may freely mutate the compiler."""
     c = compilers[case.get("layout", "rs")]
+    if case.get("mark"):
+        from . import findings
+
+        findings.install_markers()
     tr = reset_trace()
     res = {"ok": False}
     try:
@@ -134,6 +157,7 @@ def compile_stmt_case(compilers: dict, case: dict) -> dict:
         res["exc"] = exc_info(e)
     if case.get("subs"):
         res["sub_defs"] = {n: d for n, d in sub_defs(c).items() if n in {s[0] for s in case["subs"]}}
+        res["sub_sigs"] = {n: d for n, d in sub_sigs(c).items() if n in {s[0] for s in case["subs"]}}
     res["trace"] = {
         "casts": tr.casts[:400],
         "contract_violations": tr.contract_violations[:20],
@@ -152,6 +176,10 @@ def compile_insn_case(compilers: dict, case: dict) -> dict:
     from rzilcompiler.Parser import InsnParsingBundle, parse_single
 
     c = compilers[case.get("layout", "rs")]
+    if case.get("mark"):
+        from . import findings
+
+        findings.install_markers()
     tr = reset_trace()
     res = {"ok": False, "name": case["name"]}
     try:
